@@ -7,6 +7,7 @@ package c02
 
 import (
 	"bytes"
+	"crypto/sha1"
 	"fmt"
 	"math/big"
 	"strings"
@@ -28,6 +29,10 @@ type RootSpec struct {
 	NoKU    bool // no KeyUsage extension
 	UTF8    bool // subject CN as UTF8String instead of PrintableString
 	Twin    int  // > 0: reuse the key of the (Twin-1 mod i)-th earlier root under this root's different name (a re-named CA)
+	// constraints the log disables on purpose; the statement has no clause about them, so they must not
+	// change the verdict (0 = absent)
+	PathLen  int // n > 0: pathLenConstraint n-1
+	NameCons int // 1: permitted dNSName subtree the leaf is outside of; 2: excluded subtree the leaf is inside
 }
 
 type CASpec struct {
@@ -44,6 +49,12 @@ type CASpec struct {
 	Trusted  bool // the certificate under Parent is in the trusted pool
 	TrustedX bool // the cross-signed sibling is in the trusted pool
 	Twin     int  // > 0: reuse the key of the (Twin-1 mod n)-th earlier node under this node's different name
+	BadAKI   bool // with AKI: the identifier matches NO certificate anywhere (issuer found by name only)
+	// constraints the log disables on purpose (no clause of the statement): must not change the verdict
+	PathLen     int    // n > 0: pathLenConstraint n-1 (CA roles)
+	NameCons    int    // 1: permitted dNSName subtree the leaf is outside of; 2: excluded subtree the leaf is inside
+	EKU         string // role "ca": an EKU extension with just this usage (leaf EKUs need not nest)
+	CritUnknown bool   // an unknown critical extension
 }
 
 type LeafSpec struct {
@@ -59,6 +70,7 @@ type LeafSpec struct {
 	Exts      []int // indices into extraOIDs
 	NotAfter  int64 // seconds relative to pki.Epoch
 	AKI       bool
+	BadAKI    bool // with AKI: an identifier that matches no certificate anywhere
 	SigAlg    int
 }
 
@@ -103,6 +115,10 @@ type meta struct {
 	poison   string   // as LeafSpec.Poison
 	node     int      // node index, -1 for leaves / foreign certificates
 	variant  int
+	pathLen  int // -1: no pathLenConstraint
+	nameCons bool
+	crit     bool // unknown critical extension
+	badAKI   bool
 }
 
 type node struct {
@@ -290,6 +306,27 @@ func (w *world) register(c *pki.Cert, m *meta) {
 	w.all = append(w.all, c)
 }
 
+var oidCritUnknown = []int{1, 3, 6, 1, 4, 1, 55555, 7}
+
+// nameConstraints builds a critical NameConstraints extension: kind 1 permits only a dNSName subtree
+// the generated leaf (c02-leaf.example.com) lies outside of, kind 2 excludes the subtree it lies in.
+func nameConstraints(kind int) pki.Ext {
+	sub := func(dom string) []byte { return derx.Seq(derx.Seq(derx.TLV(0x82, []byte(dom)))) }
+	var body []byte
+	if kind == 1 {
+		body = derx.TLV(0xa0, sub("elsewhere.test")[2:])
+	} else {
+		body = derx.TLV(0xa1, sub("example.com")[2:])
+	}
+	return pki.Ext{OID: pki.OIDExtNameConstr, Critical: true, Value: derx.Seq(body)}
+}
+
+// bogusKeyID is an authority key identifier that equals no subject key identifier anywhere.
+func bogusKeyID(label string) []byte {
+	h := sha1.Sum([]byte("c02 bogus key id " + label))
+	return h[:]
+}
+
 func poisonExt(kind string) (pki.Ext, bool) {
 	e := pki.Ext{OID: pki.OIDExtPoison}
 	switch kind {
@@ -335,18 +372,25 @@ func build(c *Case) *world {
 		if r.V1 {
 			t.Version = 1
 		} else {
-			t.Exts = []pki.Ext{pki.BasicConstraints(true, -1, true)}
+			t.Exts = []pki.Ext{pki.BasicConstraints(true, r.PathLen-1, true)}
 			if !r.NoKU {
 				t.Exts = append(t.Exts, pki.KeyUsage(pki.KUKeyCertSign, pki.KUCRLSign))
 			}
 			if w.hasSKI(k) {
 				t.Exts = append(t.Exts, pki.SKI(pki.KeyID(k)))
 			}
+			if r.NameCons > 0 {
+				t.Exts = append(t.Exts, nameConstraints(r.NameCons))
+			}
 		}
 		cert := issueMemo(nil, t, n.label)
 		n.certs, n.parents, n.trusted = []*pki.Cert{cert}, []int{-1}, []bool{r.Trusted}
 		w.nodes = append(w.nodes, n)
-		w.register(cert, &meta{caBit: !r.V1, node: i})
+		rm := &meta{caBit: !r.V1, node: i, pathLen: -1}
+		if !r.V1 {
+			rm.pathLen, rm.nameCons = r.PathLen-1, r.NameCons > 0
+		}
+		w.register(cert, rm)
 	}
 
 	// intermediates
@@ -376,6 +420,7 @@ func build(c *Case) *world {
 			pc := pn.certs[0]
 			t := pki.Template{Serial: next(), Subject: n.subject, NotBefore: nb, NotAfter: na, Key: k}
 			var ekus []string
+			cm := &meta{pathLen: -1}
 			switch s.Role {
 			case "nonca":
 				if !s.NoKU {
@@ -388,28 +433,44 @@ func build(c *Case) *world {
 					t.Version = 1
 				}
 			default:
-				t.Exts = []pki.Ext{pki.BasicConstraints(true, -1, true)}
+				t.Exts = []pki.Ext{pki.BasicConstraints(true, s.PathLen-1, true)}
 				if !s.NoKU {
 					t.Exts = append(t.Exts, pki.KeyUsage(pki.KUKeyCertSign, pki.KUCRLSign))
 				}
 				if s.Role == "pre" {
 					t.Exts = append(t.Exts, pki.EKU(pki.OIDEKUCT))
 					ekus = []string{"CT"}
+				} else if oid, ok := ekuOIDs[s.EKU]; ok {
+					t.Exts = append(t.Exts, pki.EKU(oid))
+					ekus = []string{s.EKU}
 				}
+				if s.NameCons > 0 {
+					t.Exts = append(t.Exts, nameConstraints(s.NameCons))
+				}
+				cm.pathLen, cm.nameCons = s.PathLen-1, s.NameCons > 0
+			}
+			if s.CritUnknown {
+				t.Exts = append(t.Exts, pki.Ext{OID: oidCritUnknown, Critical: true, Value: derx.Octets([]byte{1})})
+				cm.crit = true
 			}
 			if w.hasSKI(k) {
 				t.Exts = append(t.Exts, pki.SKI(pki.KeyID(k)))
 			}
-			if s.AKI {
+			if s.AKI && s.BadAKI {
+				t.Exts = append(t.Exts, pki.AKI(bogusKeyID(n.label)))
+				cm.badAKI = true
+			} else if s.AKI {
 				t.Exts = append(t.Exts, pki.AKI(pki.KeyID(pn.key)))
 			}
 			if t.Version == 1 {
 				t.Exts = nil
+				*cm = meta{pathLen: -1}
 			}
 			algs := pki.SigAlgsFor(pn.key)
 			t.SigAlg = algs[mod(s.SigAlg+variant, len(algs))]
 			cert := issueMemo(pc, t, fmt.Sprintf("%s.%d", n.label, variant))
-			w.register(cert, &meta{caBit: s.Role != "nonca", ekus: ekus, node: idx, variant: variant})
+			cm.caBit, cm.ekus, cm.node, cm.variant = s.Role != "nonca", ekus, idx, variant
+			w.register(cert, cm)
 			return cert
 		}
 		n.certs, n.parents, n.trusted = []*pki.Cert{mk(p0, 0)}, []int{p0}, []bool{s.Trusted && !(s.Role == "nonca" && s.V1)}
@@ -429,9 +490,9 @@ func build(c *Case) *world {
 
 	// foreign mini-PKI (for "insert an unrelated certificate")
 	fr := issueMemo(nil, pki.CATemplate("C02 Foreign Root", foreignRootKey(), 77, nil), "foreign-root")
-	w.register(fr, &meta{caBit: true, node: -1})
+	w.register(fr, &meta{caBit: true, node: -1, pathLen: -1})
 	fl := issueMemo(fr, pki.LeafTemplate("c02-foreign-leaf", foreignLeafKey(), 78, nil), "foreign-leaf")
-	w.register(fl, &meta{ekus: []string{"ServerAuth"}, node: -1})
+	w.register(fl, &meta{ekus: []string{"ServerAuth"}, node: -1, pathLen: -1})
 
 	for _, n := range w.nodes {
 		for v, cert := range n.certs {
@@ -475,7 +536,9 @@ func build(c *Case) *world {
 		if w.hasSKI(lk) {
 			exts = append(exts, pki.SKI(pki.KeyID(lk)))
 		}
-		if ls.AKI {
+		if ls.AKI && ls.BadAKI {
+			exts = append(exts, pki.AKI(bogusKeyID("leaf")))
+		} else if ls.AKI {
 			exts = append(exts, pki.AKI(pki.KeyID(in.key)))
 		}
 		seen := map[int]bool{}
@@ -506,7 +569,7 @@ func build(c *Case) *world {
 		if _, ok := poisonExt(poison); !ok {
 			poison = ""
 		}
-		w.register(leaf, &meta{caBit: ls.CA, ekus: ekus, poison: poison, node: -1})
+		w.register(leaf, &meta{caBit: ls.CA, ekus: ekus, poison: poison, node: -1, pathLen: -1, badAKI: ls.AKI && ls.BadAKI})
 		w.path = append(w.path, leaf)
 	}
 	for cur >= 0 {
